@@ -1,0 +1,164 @@
+//go:build verif
+
+// Contracts for the govc verifier (comment-only file; compiled only with -tags verif, and then to nothing).
+
+package skiplist
+
+// ---------------------------------------------------------------------------
+// L0: abstract next pointers. The packed (pointer, deleted) word of node_amd64.go is abstracted by two ghost
+// maps per node; getNext/setNext/dcasNext are specified against them (trusted here; their byte-level
+// justification is the L0 lemma of DESIGN.md section 3.1).
+// ---------------------------------------------------------------------------
+
+//@ ghost field Node.nx [int]*Node
+//@ ghost field Node.del [int]bool
+
+//@ func (*Node).getNext
+//@ trusted L0 abstraction of the packed next word (unsafe pointer arithmetic, unaligned atomic load)
+//@ pure-call
+//@ requires n != nil
+//@ ensures result0 == n.nx[level] && (result1 <==> n.del[level])
+
+//@ func (*Node).setNext
+//@ trusted L0 abstraction of the packed next word
+//@ requires n != nil
+//@ modifies n.nx[level], n.del[level]
+//@ ensures n.nx[level] == ptr && (n.del[level] <==> deleted)
+
+//@ func (*Node).dcasNext
+//@ trusted L0 abstraction of the packed next word (single CAS on pointer+flag)
+//@ requires n != nil
+//@ modifies n.nx[level], n.del[level]
+//@ ensures result <==> (old(n.nx[level]) == prevPtr && (old(n.del[level]) <==> prevIsdeleted))
+//@ ensures result ==> n.nx[level] == newPtr && (n.del[level] <==> newIsdeleted)
+//@ ensures !result ==> n.nx[level] == old(n.nx[level]) && (n.del[level] <==> old(n.del[level]))
+
+//@ func (Node).Level
+//@ inline
+
+//@ axiom sl-globals: MinItem == nil && MaxItem == 18446744073709551615
+//@ ufun cmpf(fn ref, a ref, b ref) int
+//@ callback-type skiplist.CompareFn(fn ref, a ref, b ref) r int
+//@ pure-call
+//@ ensures r == cmpf(fn, a, b)
+
+// ---------------------------------------------------------------------------
+// L1: the level-0 chain as a ghost sequence (quiescent, sequential view)
+// ---------------------------------------------------------------------------
+
+//@ ghost field Skiplist.phys [int]*Node
+//@ ghost field Skiplist.n int
+//@ ghost field Iterator.ix int
+//@ ghost field ActionBuffer.pos int
+
+//@ pure at(s *Skiplist, i int) *Node = ite(i < s.n, s.phys[i], s.tail)
+//@ pure wfChain(s *Skiplist) bool = s != nil && s.head != nil && s.tail != nil && s.head != s.tail && s.n >= 0 &&
+//@     (forall i int :: 0 <= i && i < s.n ==> s.phys[i] != nil && s.phys[i] != s.head && s.phys[i] != s.tail) &&
+//@     (forall i, j int :: 0 <= i && i < j && j < s.n ==> s.phys[i] != s.phys[j]) &&
+//@     s.head.nx[0] == at(s, 0) && !s.head.del[0] &&
+//@     (forall i int :: 0 <= i && i < s.n ==> s.phys[i].nx[0] == at(s, i + 1) && !s.phys[i].del[0])
+//@ pure positioned(it *Iterator) bool = it != nil && it.s != nil && 0 <= it.ix && it.ix <= it.s.n && it.curr == at(it.s, it.ix) &&
+//@     (it.valid || it.ix == it.s.n) && !it.deleted
+
+// The SMR refresh of the skiplist iterator (count % smrInterval == 0) never triggers for iterators that keep the
+// default interval (2^64-1) and take fewer than 2^62 steps; callers establish this.
+//@ pure fewSteps(it *Iterator) bool = it.smrInterval == 18446744073709551615 && it.count < 4611686018427387904
+
+//@ func (*Iterator).SeekFirst
+//@ props C09 C14
+//@ requires it != nil && wfChain(it.s)
+//@ modifies it.prev, it.curr, it.valid, it.ix
+//@ ghost-exit it.ix := 0
+//@ ensures[first] it.ix == 0 && it.curr == at(it.s, 0) && it.valid && it.prev == it.s.head
+//@ nopanic
+
+//@ func (*Iterator).Valid
+//@ props C09 C14
+//@ requires positioned(it) && wfChain(it.s)
+//@ modifies it.valid
+//@ ensures[iff] result <==> it.ix < it.s.n
+//@ ensures[positioned] positioned(it)
+//@ nopanic
+
+//@ func (*Iterator).Get
+//@ props C09 C14
+//@ requires positioned(it) && wfChain(it.s) && it.ix < it.s.n
+//@ modifies none
+//@ ensures[item] result == it.s.phys[it.ix].itm
+//@ nopanic
+
+//@ func (*Iterator).GetNode
+//@ props C09 C14
+//@ requires it != nil
+//@ modifies none
+//@ ensures[node] result == it.curr
+//@ nopanic
+
+// Search. The sequential (quiescent) contract of the lock-free path search. buf.pos is a ghost out-parameter:
+// the index of the first node whose item is not below itm. The loops of findPath (goto retry, helping) are
+// not verified: this contract is an assumption of everything that says "modulo L1".
+//@ pure below(s *Skiplist, cmp ref, itm ref, i int) bool = cmpf(cmp, s.phys[i].itm, itm) < 0
+//@ pure monotone(s *Skiplist, cmp ref, itm ref) bool = forall i, j int :: 0 <= i && i < j && j < s.n && !below(s, cmp, itm, i) ==> !below(s, cmp, itm, j)
+
+//@ func (*Skiplist).findPath
+//@ trusted sequential contract of the lock-free search (L1 assumption; loops with goto retry and helping are not verified)
+//@ requires wfChain(s) && buf != nil && len(buf.preds) >= 1 && len(buf.succs) >= 1 && monotone(s, cmp, itm)
+//@ requires itm != MinItem && itm != MaxItem
+//@ modifies buf.pos, elems(buf.preds), elems(buf.succs), sts.readConflicts
+//@ ensures 0 <= buf.pos && buf.pos <= s.n
+//@ ensures forall i int :: 0 <= i && i < buf.pos ==> below(s, cmp, itm, i)
+//@ ensures buf.pos < s.n ==> !below(s, cmp, itm, buf.pos)
+//@ ensures buf.succs[0] == at(s, buf.pos) && buf.preds[0] == ite(buf.pos > 0, s.phys[buf.pos - 1], s.head)
+//@ ensures foundNode != nil <==> (buf.pos < s.n && cmpf(cmp, s.phys[buf.pos].itm, itm) == 0)
+//@ ensures foundNode != nil ==> foundNode == s.phys[buf.pos]
+
+//@ pure physItemsOK(s *Skiplist) bool = forall i int :: 0 <= i && i < s.n ==> s.phys[i].itm != MinItem && s.phys[i].itm != MaxItem
+
+//@ func (*Iterator).Seek
+//@ props C09 C14
+//@ requires it != nil && wfChain(it.s) && it.buf != nil && len(it.buf.preds) >= 1 && len(it.buf.succs) >= 1 && monotone(it.s, it.cmp, itm)
+//@ requires itm != MinItem && itm != MaxItem && !it.deleted
+//@ modifies it.valid, it.prev, it.curr, it.ix, it.buf.pos, elems(it.buf.preds), elems(it.buf.succs), it.s.Stats.readConflicts
+//@ ghost-exit it.ix := it.buf.pos
+//@ ensures[pos] positioned(it) && it.valid
+//@ ensures[lower] forall i int :: 0 <= i && i < it.ix ==> below(it.s, it.cmp, itm, i)
+//@ ensures[upper] it.ix < it.s.n ==> !below(it.s, it.cmp, itm, it.ix)
+//@ ensures[found] result <==> (it.ix < it.s.n && cmpf(it.cmp, it.s.phys[it.ix].itm, itm) == 0)
+//@ nopanic
+
+//@ func (*Iterator).Next
+//@ props C09 C14
+//@ requires positioned(it) && wfChain(it.s) && it.ix < it.s.n && fewSteps(it)
+//@ modifies it.valid, it.prev, it.curr, it.ix, it.count, it.deleted
+//@ loop 1 invariant positioned(it) && wfChain(it.s) && it.ix < it.s.n && fewSteps(it) && it.ix == old(it.ix) && it.curr == old(it.curr) && it.count == old(it.count)
+//@ ghost-exit it.ix := it.ix + 1
+//@ ensures[step] it.ix == old(it.ix) + 1 && positioned(it) && it.valid && it.count == old(it.count) + 1
+//@ ensures[prev] it.prev == old(it.curr)
+//@ nopanic
+
+//@ func (*Skiplist).helpDelete
+//@ props C14 C13
+//@ requires s != nil && prev != nil && curr != nil && sts != nil && level >= 0
+//@ modifies prev.nx[level], prev.del[level], sts.softDeletes, sts.usedBytes, sts.levelNodesCount[curr.level], heap(Stats.softDeletes), heap(Stats.usedBytes), heap(Stats.levelNodesCount)
+//@ ensures[iff] result <==> (old(prev.nx[level]) == curr && !old(prev.del[level]))
+//@ ensures[unlink] result ==> prev.nx[level] == next && !prev.del[level]
+//@ ensures[fail] !result ==> prev.nx[level] == old(prev.nx[level]) && (prev.del[level] <==> old(prev.del[level]))
+
+//@ func (*Skiplist).NewIterator
+//@ trusted allocation of the iterator object and barrier acquisition (barrier protocol: C16)
+//@ modifies heap($alive), heap($brk)
+//@ ensures result != nil && result >= old(brk()) && result.s == s && result.cmp == cmp && result.buf == buf && !result.deleted && !result.valid
+//@ ensures result.smrInterval == 18446744073709551615 && result.count == 0
+
+//@ func (*Skiplist).MakeBuf
+//@ trusted allocation of the path buffer
+//@ modifies heap($alive), heap($brk)
+//@ ensures result != nil && result >= old(brk()) && len(result.preds) == 33 && len(result.succs) == 33 && ptr(result.preds) >= old(brk()) && ptr(result.succs) >= old(brk())
+//@ ensures ptr(result.preds) + 8 * 33 <= ptr(result.succs) || ptr(result.succs) + 8 * 33 <= ptr(result.preds)
+
+//@ func (*Skiplist).FreeBuf
+//@ inline
+
+//@ func (*Iterator).Close
+//@ trusted releases the barrier session (barrier protocol: C16); no effect on the structure
+//@ modifies none
